@@ -1,6 +1,9 @@
 package profile
 
-import "fmt"
+import (
+	"fmt"
+	"sync/atomic"
+)
 
 type VarGenerator struct {
 	vars    []string
@@ -15,15 +18,14 @@ func NewVarGenerator() VarGenerator {
 	}
 }
 
-var globalGenerator = NewVarGenerator()
+var globalCounter int64
 
 func Genvar(hint string) string {
-	globalGenerator.counter++
-	return fmt.Sprintf("gen_%s_%d", hint, globalGenerator.counter)
+	return fmt.Sprintf("gen_%s_%d", hint, atomic.AddInt64(&globalCounter, 1))
 }
 
 func GenReset() {
-	globalGenerator.counter = 0
+	atomic.StoreInt64(&globalCounter, 0)
 }
 
 func (g *VarGenerator) GenExpressionVar(quantification Quantification, cardinality *VariableCardinality) Variable {
